@@ -89,6 +89,47 @@ func c14GenPurity(rt *rapid.T) c14PurityCase {
 		}
 		c.Templates = append(c.Templates, q)
 	}
+	// selections that are expected to FAIL, mixed into the same batch: refusal paths (unknown or
+	// removed generation, generation 0, no weight to distribute, no subnet of the family) must be as
+	// goroutine-safe and as repeatable as successful selections
+	if !c14Rarely(rt, 4, "nofailing") {
+		c.Cfg.Gens = append(c.Cfg.Gens, c14FailGens()...)
+		configured := map[uint]bool{}
+		for _, g := range c.Cfg.Gens {
+			configured[g.Gen] = true
+		}
+		nf := rapid.IntRange(1, 3).Draw(rt, "nfail")
+		for i := 0; i < nf; i++ {
+			q := c14GenQuery(rt, c.Cfg)
+			q.Seed = nil
+			if !c14Rarely(rt, 4, "failclient") {
+				q.Entry = c14EntrySelect
+				q.LibVer = rapid.SampledFrom([]uint{2, 0, 1, 4, 3}).Draw(rt, "faillibver")
+			}
+			if q.Fam == c14FamAny {
+				q.Fam = c14FamV6
+			}
+			switch rapid.SampledFrom([]string{"unknown", "unknown", "gen0", "removed", "zero-weight", "no-family"}).Draw(rt, "failkind") {
+			case "unknown":
+				q.Gen = rapid.SampledFrom([]uint{3, 958, 77777, 5}).Draw(rt, "unkgen")
+			case "gen0":
+				q.Gen = 0
+				if configured[0] {
+					q.Gen = 6
+				}
+			case "removed":
+				q.Gen = c14GenRemoved
+			case "zero-weight":
+				q.Gen = c14GenZeroWeight
+			case "no-family":
+				q.Gen, q.Fam = c14GenV4Only, c14FamV6
+				if rapid.Bool().Draw(rt, "nofam4") {
+					q.Gen, q.Fam = c14GenV6Only, c14FamV4
+				}
+			}
+			c.Templates = append(c.Templates, q)
+		}
+	}
 	c.SeedBase = rapid.SliceOfN(rapid.Byte(), 8, 8).Draw(rt, "seedbase")
 	c.SeedLen = rapid.SampledFrom([]int{16, 16, 32, 8, 1, 40}).Draw(rt, "seedlen")
 	c.G = rapid.SampledFrom([]int{2, 3, 4, 8, 8, 16, 32}).Draw(rt, "G")
@@ -99,6 +140,24 @@ func c14GenPurity(rt *rapid.T) c14PurityCase {
 	}
 	c.Rounds = rapid.IntRange(1, 2).Draw(rt, "rounds")
 	return c
+}
+
+// Generations on which every selection (or every selection of one family) is refused.
+const (
+	c14GenZeroWeight uint = 4242
+	c14GenRemoved    uint = 4243
+	c14GenV4Only     uint = 4244
+	c14GenV6Only     uint = 4245
+)
+
+func c14FailGens() []c14GenCfg {
+	both := []string{"10.200.0.0/16", "2001:db8:c800::/64"}
+	return []c14GenCfg{
+		{Gen: c14GenZeroWeight, Groups: []c14Group{{Weight: 0, Rand: -1, Subnets: both}, {Weight: -1, Rand: 1, Subnets: []string{"10.201.0.0/16", "2001:db8:c801::/64"}}}},
+		{Gen: c14GenRemoved, Removed: true, Groups: []c14Group{{Weight: 1, Rand: -1, Subnets: both}}},
+		{Gen: c14GenV4Only, Groups: []c14Group{{Weight: 3, Rand: 1, Subnets: []string{"10.202.0.0/16"}}, {Weight: 1, Rand: 0, Subnets: []string{"10.203.0.0/16"}}}},
+		{Gen: c14GenV6Only, Groups: []c14Group{{Weight: 3, Rand: 0, Subnets: []string{"2001:db8:c802::/64"}}, {Weight: 1, Rand: 1, Subnets: []string{"2001:db8:c803::/64"}}}},
+	}
 }
 
 func c14RunSerial(b *c14Built, qs []c14Query) []c14Out {
@@ -160,7 +219,14 @@ func c14CheckPurity(t vh.Fataler, rec *vh.Rec, env *c14Env, c c14PurityCase, rou
 	classes := map[string]bool{fmt.Sprintf("G:%d", c.G): true, "mode:" + c.Mode: true}
 	distinct := map[string]bool{}
 	legacyOK, hkdfOK := false, false
+	nErr, nErrUnknownGen := 0, 0
 	for i, o := range r1 {
+		if o.IsErr {
+			nErr++
+			if !b.has[qs[i].Gen] && qs[i].Entry == c14EntrySelect {
+				nErrUnknownGen++
+			}
+		}
 		legacy := qs[i].Entry == c14EntrySelect && qs[i].LibVer < 2
 		if o.Panic == "" && !o.IsErr && !o.Nil {
 			distinct[string(o.IP)] = true
@@ -182,6 +248,12 @@ func c14CheckPurity(t vh.Fataler, rec *vh.Rec, env *c14Env, c c14PurityCase, rou
 	}
 	if c.Cfg.ViaToml {
 		classes["via-toml"] = true
+	}
+	if nErr >= 2 && len(distinct) > 0 {
+		classes["refusals-mixed-with-addresses"] = true
+	}
+	if nErrUnknownGen >= 2 {
+		classes["unknown-generation-refusals"] = true
 	}
 	nontrivial := c.G >= 2 && len(distinct) >= 16
 	rec.Case(nontrivial, vh.Digest(c), c, c14SortedKeys(classes)...)
@@ -225,9 +297,9 @@ func c14CheckPurity(t vh.Fataler, rec *vh.Rec, env *c14Env, c c14PurityCase, rou
 }
 
 func TestVerif_C14_purity(t *testing.T) {
-	rec := vh.NewRec("C14", "purity", "rapid: a configuration (4 in 5 with wide subnets and positive weights so that different seeds give different addresses), 1-6 query templates (4 in 5 cases force a library version 0/1 template), a batch of seeds expanded from a drawn base, G in {2,3,4,8,16,32} goroutines x 50..2000 (thorough 10000) selections each on one shared selector, released together; modes: batch dealt out over the goroutines / every goroutine runs the whole batch; oracle: serial batch == serial batch repeated == every concurrent pass, element-wise (error-ness, address bytes, port flag). one evaluation = one batch; non-trivial = >= 2 goroutines and >= 16 distinct addresses in the serial results; distinct = distinct batch description. Schedules are stress-sampled, not enumerated.")
+	rec := vh.NewRec("C14", "purity", "rapid: a configuration (4 in 5 with wide subnets and positive weights so that different seeds give different addresses), 1-6 query templates (4 in 5 cases force a library version 0/1 template) plus, in 3 of 4 cases, 1-3 templates that are expected to be refused (unknown / removed generation, generation 0, zero-weight-only generation, generation without a subnet of the family), a batch of seeds expanded from a drawn base, G in {2,3,4,8,16,32} goroutines x 50..2000 (thorough 10000) selections each on one shared selector, released together; modes: batch dealt out over the goroutines / every goroutine runs the whole batch; oracle: serial batch == serial batch repeated == every concurrent pass, element-wise (error-ness, address bytes, port flag). one evaluation = one batch; non-trivial = >= 2 goroutines and >= 16 distinct addresses in the serial results; distinct = distinct batch description. Schedules are stress-sampled, not enumerated.")
 	defer rec.Flush()
-	rec.Require("legacy-libver-selecting", "hkdf-libver-selecting", "many-distinct-results", "mode:split", "mode:same")
+	rec.Require("legacy-libver-selecting", "hkdf-libver-selecting", "many-distinct-results", "mode:split", "mode:same", "refusals-mixed-with-addresses", "unknown-generation-refusals")
 	env := &c14Env{dir: t.TempDir()}
 	if p := vh.ReplayFile(); p != "" {
 		var c c14PurityCase
